@@ -279,13 +279,15 @@ class Replacer:
 
     def __call__(self, uri):
         scheme, location, path, query, fragment = urllib.parse.urlsplit(uri)
-        if scheme or location or path.startswith('/'):
+        if scheme or location or path.startswith('/') or not path:
             # keep anything absolute
             return uri
 
         path, filename = os.path.split(path)
         combined = os.path.normpath(os.path.join(self.base, path, filename))
-        return urllib.request.pathname2url(combined)
+        return urllib.parse.urlunsplit(
+            ('', '', urllib.request.pathname2url(combined), query, fragment)
+        )
 
     @staticmethod
     def extract_base(uri):
